@@ -49,7 +49,7 @@ func run(c *vk.Ctx) {
 		return
 	}
 	defer limited.Close()
-	sem.RunCases(c, base, "mem", c.Pick(120, 1500), gen.Options{WideEvery: 4, AlgebraEvery: 5}, 4, 12, func(i int, r *rand.Rand, p *sem.Prepared, contextual []*openfgav1.TupleKey) {
+	sem.RunCases(c, base, "mem", c.Pick(120, 1500), gen.Options{WideEvery: 4, AlgebraEvery: 5, HierarchyEvery: 6}, 4, 12, func(i int, r *rand.Rand, p *sem.Prepared, contextual []*openfgav1.TupleKey) {
 		oneCase(c, i, r, p, contextual, base, limited)
 	})
 }
